@@ -136,6 +136,17 @@ Proof.
 Qed.
 Print Assumptions C07_levels_cover.
 
+(* the code as pinned (before fix 1b3e70c) tested |f(centre)| >= hdiag: with that comparison the
+   statement C07_quadtree_eq_uniform is false - for the union of the circle circumscribed about one
+   finest square with a circle covering its two upper corners (1-Lipschitz) that renderer emits
+   nothing, the evaluation of the cell emits the segment along its lower side.  (The real code showed
+   the same loss in 2D and 3D: corpus/C07.json.) *)
+Theorem C07_original_comparison_refuted : exists f : RV2 -> R, lip2 f /\
+  @quadtree_ge ROps (mkV2 0 0) 1 (fv2 (mkV2 0 0) 1 f) 0 (0, 0)%Z = [] /\
+  @quad_uniform ROps (mkV2 0 0) 1 (fv2 (mkV2 0 0) 1 f) 0 (0, 0)%Z = [(mkV2 0 0, mkV2 2 0)].
+Proof. exists tie_field. exact ge_variant_loses_segment. Qed.
+Print Assumptions C07_original_comparison_refuted.
+
 (* the hypotheses are satisfiable: spheres and circles are 1-Lipschitz *)
 Example C07_sphere_instance : forall c R0, lip3 (fun p => dist3 p c - R0).
 Proof. exact sphere_lip3. Qed.
